@@ -35,5 +35,7 @@ for d in sorted(glob.glob(f"{root}/seeded/*")):
         "violated_obligations": viol,
         "replayed_on_real_code": len(confirmed) > 0,
     }
+    if not meta["detected"] and os.path.exists(f"{d}/why_missed.txt"):
+        meta["why_missed"] = open(f"{d}/why_missed.txt").read().strip()
     json.dump(meta, open(f"{d}/meta.json", "w"), indent=1)
     print(name, "DETECTED" if meta["detected"] else "MISSED", viol[:3])
